@@ -4,6 +4,7 @@ import Complgen.Model.Pipeline
 import Complgen.Model.Parse
 import Complgen.Model.Dot
 import Complgen.Model.DotEmit
+import Complgen.Model.Tables
 import Complgen.Model.BashRt
 import Complgen.Model.BashRtCalls
 import Complgen.Cert.Search
@@ -343,6 +344,30 @@ def handle (line : String) : String :=
     | some sh, some g =>
       let W := Spec.Complete.worldOf g sh (parseOutTable out)
       "ok " ++ " ; ".intercalate ((cls.splitOn ";").map (completeOne W))
+    | _, _ => "bad-op"
+  | ["tablescmp", main, subs, realMain, realSubs] =>
+    -- the model of the table construction (Model/Tables.lean; `tables_embed_main`: the tables determine exactly the
+    -- automaton) on the automaton of the real library vs the tables read from the real bash script; literal ids are
+    -- compared up to the order among entries with the same text (`canonLits`: bash scripts carry no descriptions,
+    -- and the real code orders such entries with an unstable sort)
+    match parseAutoWire main, (if subs == "-" then some [] else (subs.splitOn "&").mapM parseAutoWire) with
+    | some m, some ss =>
+      let d : Dfa := ⟨m, ss⟩
+      let S := Tables.ofDfa d
+      let canon := fun (T : BashRt.Tables) => Tables.wire (Tables.canonLits T)
+      let cmds := ",".intercalate ((Tables.commands d).map Hex.encode)
+      let real := if realSubs == "-" then [] else (realSubs.splitOn "&").filterMap fun x =>
+        match x.splitOn "@" with
+        | [j, w] => j.toNat?.map fun j => (j, w)
+        | _ => none
+      if canon (parseTables realMain) != canon S.main then
+        s!"ok differ main model={canon S.main} real={canon (parseTables realMain)} ## {cmds}"
+      else if real.map (·.1) != S.subs.map (·.1) then
+        s!"ok differ subids model={S.subs.map (·.1)} real={real.map (·.1)} ## {cmds}"
+      else
+        match real.find? (fun (j, w) => canon (parseTables w) != canon (S.sub j)) with
+        | some (j, w) => s!"ok differ sub{j} model={canon (S.sub j)} real={canon (parseTables w)} ## {cmds}"
+        | none => s!"ok same ## {cmds}"
     | _, _ => "bad-op"
   | ["dotemit", base, main, subs] =>
     -- the model of `DFA::to_dot` (Model/DotEmit.lean; `emitDfa_parse`: its output always parses to the
